@@ -21,6 +21,11 @@ PROPERTY_FILE = 'C12/Property.v'
 LEVEL = 'proof'
 ALLOWED_AXIOMS = ()
 TRUSTED_BASE = [
+    'C12/Session.v (parse of the info packet in _update_info, its retry loop, the nRF51 bootloader+softdevice branch of '
+    'Bootloader.flash: erase page + override page flash_pages - len//page_size) is hand-written and tied on every run: '
+    '_update_info on scripted receive events, and whole Bootloader.flash(zip, []) sessions (real zip/manifest parsing, real '
+    'artifact selection) whose load/write frames and final memories must equal the model composed from parse_info, '
+    'flash_sdbl and internal_flash',
     'C12/Model.v (upload_buffer, write_flash, page loop of _internal_flash) is hand-written from '
     'cflib/bootloader/{__init__,cloader}.py and tied on every run by differential evaluation against the real '
     'classes on generated (geometry, image, override page, reply script, stale queue) cases',
@@ -29,8 +34,15 @@ TRUSTED_BASE = [
     'uses it, not from firmware source; it exists twice (Gallina, fakes/c12_target.py) and both are compared in every case',
 ]
 ASSUMPTIONS = [
-    'buffer-load packets reach the target (the bootloader protocol has no acknowledgement for them; loss is the '
-    'link layer\'s business, property C01); only flash-write commands and their replies are subject to faults',
+    'UPLOAD DELIVERY RELIES ON THE LINK LAYER: buffer-load packets (0x14) are assumed to reach the target, in order. The '
+    'client has no check of its own: upload_buffer gets no acknowledgement, _internal_flash never calls read_flash and '
+    'there is no CRC/verify step anywhere in cflib/bootloader, and the bootloader link is opened with safelink=0, so '
+    'the clause "every byte of every page exactly once at the right offset" is proved about what is SENT and holds '
+    'for what ARRIVES only if the radio/USB layer delivers every frame it accepted (radio auto-ack/retry, property C01); '
+    'only flash-write commands and their replies are subject to faults in the model',
+    'struct format "BBHHHH" without byte-order prefix (native) is little-endian and unpadded on the platforms cflib runs on',
+    '_update_info runs under a virtual clock (receive_packet(2) costs 2 s when empty, 0.1 s when it returns a packet); '
+    'reset_to_bootloader / link re-opening between the sd+bl step and the firmware step are played by the fake, not modelled',
     'honest environment for the exactness theorem: a positive flash-write acknowledgement [addr,0x18,1,..] enters '
     'the downlink queue only in an attempt whose command reached the target (att_honest); late, lost, negative, '
     'short and foreign packets are unrestricted',
@@ -40,19 +52,23 @@ ASSUMPTIONS = [
     'floating point equals integer division (checked by the tie on boundary values)',
     'terminate_flashing_cb is not set; progress reporting has no effect on what is sent',
 ]
-PROVED = ('Twelve theorems (C12/Property.v), all closed under the global context, over the model of _internal_flash / '
-          'upload_buffer / write_flash and the target model, for every image length >= 1, every geometry (page size, buffer '
-          'pages 1..65535, flash pages 0..65535), start or override page >= 0, either target address, every initial '
-          'buffer/flash content, every stale downlink queue and every script of flash-write fates: success puts the image in '
-          'flash exactly at start*page_size (honest acknowledgements); in every run no flash byte outside the occupied '
-          'pages changes, no command leaves the buffer or the flash, sizes/geometry are unchanged and the other target is '
-          'untouched; an image that does not fit is refused with nothing sent; upload_buffer sends 25-byte payloads at '
-          'consecutive offsets that concatenate to the page (last one shorter, possibly empty); every frame of a run is <= 32 '
-          'bytes; the load frames of a run are the per-page uploads in page order, page i to buffer i mod buffer_pages, each '
-          'once, all delivered, and the page chunks partition the image; write_flash sends the same command 1..6 times, six '
-          'silent attempts or one negative answer make it fail; a run that does not succeed ends with an error and the failed '
-          'flash-write as its last frame.')
-NOT_PROVED = ('Loss of buffer-load packets, a target whose real geometry differs from the reported one, and replies '
+PROVED = ('Eighteen theorems (C12/Property.v), all closed under the global context. Flashing (model of _internal_flash / '
+          'upload_buffer / write_flash + target model; every image length >= 1, every 16-bit geometry, start/override page, '
+          'either target, every memory content, stale queue and script of flash-write fates): success puts the image in '
+          'flash exactly at start*page_size (honest acknowledgements); no flash byte outside the occupied pages changes, no '
+          'command leaves buffer or flash, the other target is untouched; too big => refused with nothing sent; a negative '
+          'start/override page => refused or struct.error with only buffer loads sent and no flash changed; upload_buffer '
+          'frames carry 25-byte payloads at consecutive offsets concatenating to the page; every frame <= 32 bytes; load '
+          'frames of a run are the per-page uploads in order, page i to buffer i mod buffer_pages, each once, and the chunks '
+          'partition the image; write_flash sends 1..6 identical commands, six silent attempts or one negative answer fail; '
+          'a failed run ends with an error and the failed flash-write as last frame. Where: _update_info decodes the info '
+          'packet into page_size/buffer_pages/flash_pages/start_page exactly, reports only what a received matching packet '
+          'said, and asks at most six times; the nRF51 sd+bl override page flash_pages - len//page_size makes a whole-page '
+          'image fit exactly up to the end of the flash and any other length fail the size check; a successful sd+bl branch '
+          'leaves the image byte for byte in the last len/page_size pages.')
+NOT_PROVED = ('The decision logic of Bootloader.flash (which artifacts, whether the soft device is flashed, version comparison) '
+              'and zip/manifest parsing are exercised by the session tie and oracle but not modelled; reset/reconnect is '
+              'played by the fake. Loss of buffer-load packets, a target whose real geometry differs from the reported one, and replies '
               'forged or delayed across write commands (a positive acknowledgement of an earlier command arriving after '
               'the flush of the next) are outside the model; bytes of the last flash page beyond the image end take '
               'whatever the buffer held (inside the occupied range, allowed by the statement).')
@@ -849,16 +865,23 @@ def tie(ctx):
     nb, bad = int_div_boundary_check()
     for (v, ps) in bad[:3]:
         dis.append({'what': 'int(v/ps) differs from v//ps', 'v': v, 'ps': ps})
+    nx, dx, distx, sampx = tie_extra(ctx)
+    dis += dx
+    dist.update(distx)
+    nontriv += nx
     return {
-        'evaluations': len(terms) + nb,
+        'evaluations': len(terms) + nb + nx,
         'distinct_nontrivial': nontriv,
-        'rule': 'a case is (two target geometries, addressed target, image, override page, script of flash-write fates, '
+        'rule': 'also: Cloader._update_info on scripted receive events under a virtual clock (result, stored geometry, '
+                'cpu id, versions, frames sent, events consumed) and whole Bootloader.flash(zip) sessions (info packets -> '
+                'geometry, nRF51 sd+bl erase + override page, firmware images; compared: outcome, all load/write frames, final '
+                'memories); a case is (two target geometries, addressed target, image, override page, script of flash-write fates, '
                 'stale queue); non-trivial: image spans more than one buffer-full, or ends inside a page, or the script '
                 'contains an attempt that is not a plain positive acknowledgement; compared: outcome, every frame with its '
                 'delivered flag, final buffer+flash+out-of-range flag of both targets, remaining downlink queue '
                 '(two 31-bit polynomial digests computed inside Coq, differing cases re-evaluated and compared in full)',
         'samples': [{'addr': c['addr'], 'geometry': case_facts(c)[0], 'len': len(c['image']), 'override': c['override'],
-                     'script': c['script'][:3], 'impl_outcome': CODES[code]} for (c, code) in meta[11:14] + meta[-2:]],
+                     'script': c['script'][:3], 'impl_outcome': CODES[code]} for (c, code) in meta[11:14] + meta[-2:]] + sampx,
         'distribution': dist,
         'exhaustive': False,
         'disagreements': dis,
@@ -1057,6 +1080,99 @@ def grid_cases(ctx, deep):
     return out
 
 
+# ------------------------------------------------------------------------------------------------ oracle: info packet and sessions
+def check_info_case(g, tid, rest):
+    """A target reporting geometry g: after _update_info the client holds exactly g."""
+    case = {'tid': tid, 'pv_prev': 0xFF, 'events': [None, [0xFF, [tid ^ 1, 0x10] + [9] * 20],
+                                                    fs.info_packet(tid, g[0], g[1], g[2], g[3], rest=rest), None]}
+    obs = run_update_info(case)
+    if obs[0] != 2 or obs[1:5] != list(g):
+        return {'class': 'info_geometry_wrong', 'case': {'kind': 'info', 'g': list(g), 'tid': tid, 'rest': list(rest)},
+                'expected': list(g), 'observed': obs[1:5],
+                'detail': 'page_size/buffer_pages/flash_pages/start_page held by the client differ from the info packet'}
+    return None
+
+
+def check_session(case):
+    """Property text for a Bootloader.flash session: every image lands where the reported geometry says (sd+bl image in
+    the last pages of the nRF51 flash), nothing else in either flash changes, refused images write nothing."""
+    code, detail, link, tg, bl = run_session(case)
+    init = build_targets(case)
+
+    def fail(cls, expected, observed, detail_):
+        return {'class': cls, 'case': {'kind': 'session', 'case': case}, 'expected': expected, 'observed': observed,
+                'detail': detail_}
+    if code >= 98:
+        return fail('session_unexpected_exception', 'success or a flashing error', detail, '')
+    if any(t.oob for t in tg):
+        return fail('command_out_of_range', 'all commands inside buffer and flash', 'out-of-range command', '')
+    rep = {int(k): v for k, v in case['reports'].items()}
+    has_sd = case.get('sd') is not None
+    ph2 = 1 if has_sd else 0
+    allowed = {STM: [], NRF: []}       # byte ranges that may change, (lo, hi, image or None)
+    n1 = rep[NRF][0]
+    honest = all(att_honest(a, STM) and att_honest(a, NRF) for a in case.get('script', []))
+    if has_sd:
+        ps, fp, sp = n1[0], n1[2], n1[3]
+        allowed[NRF].append((sp * ps, (sp + 1) * ps, None))
+        ln = len(case['sd'])
+        if ln % ps == 0 and ln // ps <= fp:
+            allowed[NRF].append(((fp - ln // ps) * ps, fp * ps, bytes(case['sd'])))
+    n2 = rep[NRF][min(ph2, len(rep[NRF]) - 1)]
+    s2 = rep[STM][min(ph2, len(rep[STM]) - 1)]
+    for key, tid, r in (('nrf_fw', NRF, n2), ('stm_fw', STM, s2)):
+        if case.get(key) is not None:
+            ps, fp, sp = r[0], r[2], r[3]
+            ln = len(case[key])
+            if ln <= (fp - sp) * ps:
+                npg = (ln + ps - 1) // ps
+                allowed[tid].append((sp * ps, (sp + npg) * ps, bytes(case[key])))
+    for t, t0 in zip(tg, init):
+        ok = bytearray(len(t.flash))
+        for (lo, hi, _) in allowed[t.tid]:
+            for a in range(max(0, lo), min(hi, len(ok))):
+                ok[a] = 1
+        for a in range(len(t.flash)):
+            if not ok[a] and t.flash[a] != t0.flash[a]:
+                return fail('session_wrote_outside', 'flash unchanged outside the images\' page ranges',
+                            {'target': t.tid, 'byte': a, 'page': a // t.ps},
+                            'a flash page that belongs to none of the flashed images was written')
+    if code == 0 and honest:
+        for t in tg:
+            # later images may overlap earlier ranges only by mistake of the generator: check the last writer
+            for (lo, hi, img) in allowed[t.tid]:
+                if img is None:
+                    continue
+                overl = [x for x in allowed[t.tid] if x[2] is not None and x is not (lo, hi, img) and not (x[1] <= lo or hi <= x[0])]
+                if len(overl) > 1:
+                    continue
+                if bytes(t.flash[lo:lo + len(img)]) != img:
+                    return fail('session_image_not_exact', 'image at its place',
+                                {'target': t.tid, 'at_byte': lo, 'len': len(img)},
+                                'flash() succeeded but an image is not where the reported geometry puts it')
+    return None
+
+
+def oracle_extra(ctx, deep, rng):
+    fails, n = [], 0
+    for tid in (STM, NRF):
+        for g in [(1024, 10, 1024, 16), (1024, 1, 232, 88), (1, 1, 1, 0), (65535, 65535, 65535, 65535), (256, 257, 258, 259),
+                  (0x0102, 0x0304, 0x0506, 0x0708)] + [tuple(rng.randrange(65536) for _ in range(4)) for _ in range(30)]:
+            for rest in ([], [0x10], [0x10, 1, 2, 3, 4], [0x01, 0xFF, 0x7F, 9, 9, 9]):
+                n += 1
+                r = check_info_case(g, tid, rest)
+                if r and not any(x['class'] == r['class'] for x in fails):
+                    fails.append(r)
+    for _ in range(ctx.scale(150, 1500) * (3 if deep else 1)):
+        c = gen_session_case(rng)
+        n += 1
+        r = check_session(c)
+        if r and not any(x['class'] == r['class'] for x in fails):
+            fails.append(r)
+    return n, fails
+
+
+
 def oracle(ctx, deep=False):
     fails = []
     n = 0
@@ -1068,6 +1184,10 @@ def oracle(ctx, deep=False):
     cases = corpus_cases() + fixed_cases() + pool
     seen = set()
     nontriv = 0
+    nx, fx = oracle_extra(ctx, deep, __import__('random').Random(ctx.seed * 104729 + 5))
+    n += nx
+    nontriv += nx
+    fails += fx
     for (c, f) in corpus_entries():      # past witnesses, with the fault they were found under
         if f is not None:
             n += 1
@@ -1141,4 +1261,8 @@ def shrink(failure):
 
 def replay(payload, ctx):
     c = payload['case']
+    if c.get('kind') == 'info':
+        return check_info_case(tuple(c['g']), c['tid'], c['rest'])
+    if c.get('kind') == 'session':
+        return check_session(c['case'])
     return check_case(c['case'], c.get('fault'))
